@@ -27,10 +27,10 @@ func init() {
 				{Name: "balance-reads-fragment-flag", File: "routing/balance.go", Old: "\thash := hashPacket(fwPacket)\n", New: "\thash := hashPacket(fwPacket)\n\tif fwPacket.Fragment {\n\t\thash = 0\n\t}\n", Rule: "C40.flow-key"},
 				{Name: "hash-perturbed-by-map-order", File: "routing/balance.go", Old: "\tx ^= x >> 16\n", New: "\tfor k := range map[uint32]bool{1: true, 2: true} {\n\t\tx += k\n\t\tbreak\n\t}\n\tx ^= x >> 16\n", Rule: "C40.deterministic"},
 				{Name: "hash-32-bits", File: "routing/balance.go", Old: "return int(x) & 0x7FFFFFFF", New: "return int(x) & 0xFFFFFFFF", Rule: "C40.space"},
-				{Name: "scale-32-bits", File: "routing/gateway.go", Old: "uint64(loopWeight)<<31", New: "uint64(loopWeight)<<32", Rule: "C40.space"},
+				{Name: "scale-32-bits", File: "routing/gateway.go", Old: "hi, lo := bits.Mul64(w, 1<<31)", New: "hi, lo := bits.Mul64(w, 1<<32)", Rule: "C40.space"},
 				{Name: "bound-offset-minus-two", File: "routing/gateway.go", Old: "uint64(totalWeight))) - 1", New: "uint64(totalWeight))) - 2", Rule: "C40.space"},
-				{Name: "bound-before-own-weight", File: "routing/gateway.go", Old: "\t\tloopWeight += gateways[i].weight\n\t\tgateways[i].bucketUpperBound = int(divideAndRound(uint64(loopWeight)<<31, uint64(totalWeight))) - 1\n", New: "\t\tgateways[i].bucketUpperBound = int(divideAndRound(uint64(loopWeight)<<31, uint64(totalWeight))) - 1\n\t\tloopWeight += gateways[i].weight\n", Rule: "C40.buckets"},
-				{Name: "normalised-by-running-sum", File: "routing/gateway.go", Old: "<<31, uint64(totalWeight)))", New: "<<31, uint64(loopWeight)))", Rule: "C40.buckets"},
+				{Name: "bound-before-own-weight", File: "routing/gateway.go", Old: "\t\tloopWeight += gateways[i].weight\n\t\tgateways[i].bucketUpperBound = int(scaleAndRound(uint64(loopWeight), uint64(totalWeight))) - 1\n", New: "\t\tgateways[i].bucketUpperBound = int(scaleAndRound(uint64(loopWeight), uint64(totalWeight))) - 1\n\t\tloopWeight += gateways[i].weight\n", Rule: "C40.buckets"},
+				{Name: "normalised-by-running-sum", File: "routing/gateway.go", Old: "scaleAndRound(uint64(loopWeight), uint64(totalWeight))", New: "scaleAndRound(uint64(loopWeight), uint64(loopWeight))", Rule: "C40.buckets"},
 				{Name: "second-weight-writer", File: "routing/gateway.go", Old: "func (g *Gateway) Addr() netip.Addr {", New: "func (g *Gateway) SetWeight(w int) { g.weight = w }\n\nfunc (g *Gateway) Addr() netip.Addr {", Rule: "C40.bucket-writers"},
 				{Name: "route-tree-without-buckets", File: "overlay/route.go", Old: "\t\t\trouting.CalculateBucketsForGateways(gateways)\n", New: "", Rule: "C40.calc-before-insert"},
 				{Name: "system-route-without-buckets", File: "overlay/tun_linux.go", Old: "\trouting.CalculateBucketsForGateways(gateways)\n\treturn gateways\n", New: "\treturn gateways\n", Rule: "C40.calc-before-insert"},
